@@ -38,7 +38,6 @@ CONFIRMED_RAISES = {
     ("BaseCheck.get_backend", "KeyError"): "unsupported data container type (usage error at dispatch), fenced by run_checks",
     ("ColumnBackend.get_regex_columns", "IndexError"): "documented: tuple regex name on non-MultiIndex columns (usage error)",
     ("convert_uniquesettings", "ValueError"): "report_duplicates is validated to the three literals at schema construction",
-    ("DataFrameSchemaBackend._coerce_dtype_helper.<_coerce_df_dtype>", "ValueError"): "unreachable: guarded by schema.dtype is not None at the only call site",
     ("ErrorHandler.collect_error", "<dynamic>"): "re-raises the SchemaError it was given (eager mode)",
     ("MultiIndexBackend.__coerce_index", "<dynamic>"): "re-raises the first collected SchemaError (eager mode)",
     ("MultiIndexBackend.__coerce_index", "<reraise>"): "re-raises SchemaErrors",
@@ -379,6 +378,73 @@ def _raised_class(r: ast.Raise):
     return "<dynamic>"
 
 
+def _none_atom(test, positive):
+    """names (X, attr) for which `test` being true implies `X.attr is None` (positive) / `X.attr is not None` (not positive)"""
+    out = set()
+    conj = test.values if isinstance(test, ast.BoolOp) and isinstance(test.op, ast.And) else [test]
+    for c in conj:
+        if isinstance(c, ast.Compare) and len(c.ops) == 1 and isinstance(c.comparators[0], ast.Constant) and c.comparators[0].value is None \
+                and isinstance(c.left, ast.Attribute) and isinstance(c.left.value, ast.Name):
+            if isinstance(c.ops[0], ast.Is if positive else ast.IsNot):
+                out.add((c.left.value.id, c.left.attr))
+    return out
+
+
+def _established(node, want_none):
+    """(X, attr) pairs known to be None (want_none) / not None at `node`, from the enclosing if-statements (lambdas and
+    nested functions are crossed: the closure variables are the same objects)"""
+    out = set()
+    child, p = node, parent(node)
+    while p is not None:
+        if isinstance(p, ast.If):
+            if any(child is b for b in p.body):
+                out |= _none_atom(p.test, want_none)
+            elif any(child is b for b in p.orelse) and not (isinstance(p.test, ast.BoolOp)):
+                out |= _none_atom(p.test, not want_none)
+        child, p = p, parent(p)
+    return out
+
+
+def _unreachable_precondition(ix, f, s):
+    """`raise` under `if X.attr is None` in a private helper f whose every reference in the module sits under
+    `if Y.attr is not None` for the Y bound to X: the raise cannot execute.  Returns a reason or None."""
+    none_here = _established(s, True)
+    if not none_here or not (f.name.startswith("_") or getattr(f, "parent", None) is not None):
+        return None
+    params = [a.arg for a in f.node.args.args]
+    refs = []
+    for n in ast.walk(f.module.tree):
+        if isinstance(n, ast.Name) and n.id == f.name and isinstance(n.ctx, ast.Load):
+            refs.append(n)
+        elif isinstance(n, ast.Attribute) and n.attr == f.name and isinstance(n.value, ast.Name) and n.value.id in ("self", "cls"):
+            refs.append(n)
+    if not refs:
+        return None
+    for x, attr in sorted(none_here):
+        ok = True
+        for r in refs:
+            call = parent(r) if isinstance(parent(r), ast.Call) and parent(r).func is r else None
+            y = x
+            if x in params:
+                if call is None:
+                    ok = False
+                    break
+                i = params.index(x)
+                if isinstance(r, ast.Attribute) and not f.is_static() and params and params[0] in ("self", "cls"):
+                    i -= 1
+                arg = call.args[i] if 0 <= i < len(call.args) else kw(call, x)
+                if not isinstance(arg, ast.Name):
+                    ok = False
+                    break
+                y = arg.id
+            if (y, attr) not in _established(r, False):
+                ok = False
+                break
+        if ok:
+            return f"unreachable: raised under `{x}.{attr} is None`, and each of the {len(refs)} reference(s) to {f.name} is under `.{attr} is not None`"
+    return None
+
+
 def r4_raises(ctx):
     ix = ctx.ix
     eng = engine(ix)
@@ -427,6 +493,10 @@ def r4_raises(ctx):
             key = (f.short, cls)
             if key in CONFIRMED_RAISES:
                 ctx.ob("R4", f, f"raise {cls}", True, "confirmed site: " + CONFIRMED_RAISES[key], f.loc(s))
+                continue
+            why = _unreachable_precondition(ix, f, s)
+            if why:
+                ctx.ob("R4", f, f"raise {cls}", True, why, f.loc(s))
                 continue
             chain = " -> ".join(cg.path_to(seen, q)[-5:])
             ctx.ob("R4", f, f"raise {cls} in {f.short}", False,
